@@ -252,7 +252,7 @@ def rule_rcos(ctx):
             seen += 1
     vals = []
     for rec in it.calls:
-        if rec.callee in ("numpy.cos",) and rec.depth == 0:
+        if rec.callee in ("numpy.cos", "math.cos"):
             vals.append(rec)
     for rec in vals:
         arg = rec.args[0]
@@ -400,6 +400,29 @@ def rule_str2array(ctx):
             elif isinstance(n, ast.Return) and not (retname and isinstance(n.value, ast.Name) and n.value.id == retname):
                 fall_through = (n, src_of(n.value) if n.value is not None else "None")
     walk_chain(body)
+    if len(rows) != 4:
+        # the chain may be a table of (pattern, type) rows scanned by a loop: read the rows off the interpreted outcomes
+        from ..absint import ClassRef
+        itx = Interp(pkg)
+        itx.keep_cond_forms = True
+        rows2, ft2 = [], None
+        for o in itx.run(fi):
+            if o.kind != "return":
+                continue
+            hit = None
+            for txt, pol in reversed(o.conds):
+                cf = itx.cond_forms.get(txt)
+                ca = cf.single_atom() if isinstance(cf, Form) else None
+                if pol and ca and ca[0] == "fn" and ca[1] in ("re.match", "re.fullmatch") and ca[2] and isinstance(ca[2][0], Const):
+                    hit = (ca[2][0].v, ca[1])
+                    break
+            val = o.value.name.split(".")[-1] if isinstance(o.value, ClassRef) else ("None" if isinstance(o.value, Const) and o.value.v is None else repr(o.value))
+            if hit is not None:
+                rows2.append((o.node, hit[0], val, hit[1]))
+            else:
+                ft2 = (o.node, val)
+        if len(rows2) == 4:
+            rows, fall_through = rows2, ft2
     if len(rows) != 4:
         ctx.unknown("C19.6", fi, fi.node, "type-inference regexes", f"expected 4 regex branches, found {len(rows)}")
         return
